@@ -153,7 +153,7 @@ func symStringToRunes(s symString) value {
 		res = append(res, r)
 		i += n
 	}
-	return res
+	return res[:len(res):len(res)]
 }
 
 func symRunesToString(rs []value) value {
